@@ -740,10 +740,20 @@ impl<'de, R: Read<'de>> Parser<R> {
                 }
             }
             Token::Quotation(name) => {
+                // A quotation nests like a list: charge the recursion budget.
+                self.remaining_depth -= 1;
+                if self.remaining_depth == 0 {
+                    self.remaining_depth += 1;
+                    return Err(self.peek_error(ErrorCode::RecursionLimitExceeded));
+                }
+
+                let ret = self.next_value();
+
+                self.remaining_depth += 1;
+
                 // TODO: more specific error
-                let datum = self
-                    .next_value()?
-                    .ok_or_else(|| self.peek_error(ErrorCode::EofWhileParsingList))?;
+                let datum =
+                    ret?.ok_or_else(|| self.peek_error(ErrorCode::EofWhileParsingList))?;
                 Value::list(vec![Value::symbol(name), datum])
             }
         };
@@ -834,11 +844,22 @@ impl<'de, R: Read<'de>> Parser<R> {
                 }
             }
             Token::Quotation(name) => {
-                // TODO: more specific error
                 let token_end = self.read.position();
-                let quoted = self
-                    .next_datum()?
-                    .ok_or_else(|| self.peek_error(ErrorCode::EofWhileParsingList))?;
+
+                // A quotation nests like a list: charge the recursion budget.
+                self.remaining_depth -= 1;
+                if self.remaining_depth == 0 {
+                    self.remaining_depth += 1;
+                    return Err(self.peek_error(ErrorCode::RecursionLimitExceeded));
+                }
+
+                let ret = self.next_datum();
+
+                self.remaining_depth += 1;
+
+                // TODO: more specific error
+                let quoted =
+                    ret?.ok_or_else(|| self.peek_error(ErrorCode::EofWhileParsingList))?;
                 Datum::quotation(name, quoted, Span::new(start, token_end))
             }
         };
